@@ -172,6 +172,9 @@ func checkC01(tier string) {
 	ts, bound := recTypes(tier)
 	recPlugins := []string{"equal", "compare", "hash", "deepcopy", "clone", "gostring"}
 	supported := func(t *Ty, plugin string) bool {
+		if t.has("anon") && plugin != "equal" && plugin != "hash" && plugin != "gostring" {
+			return false // anonymous struct fields are refused by Compare and DeepCopy (a diagnostic: C09)
+		}
 		switch plugin {
 		case "deepcopy":
 			switch t.Kind {
@@ -215,7 +218,7 @@ func checkC01(tier string) {
 				if form == "curried" && pl != "equal" && pl != "compare" {
 					continue
 				}
-				if form == "nested" && (pl == "clone" || pl == "deepcopy") {
+				if form == "nested" && (pl == "clone" || pl == "deepcopy" || t.has("anon")) {
 					continue
 				}
 				cases = append(cases, c01RecCase(idf(), t, pl, form))
@@ -225,7 +228,7 @@ func checkC01(tier string) {
 	// list helpers over element types
 	ets, ebound := elemTypes(tier)
 	for _, t := range ets {
-		if t.has("user") {
+		if t.has("user") || t.has("anon") {
 			continue
 		}
 		cases = append(cases, c01ListCases(idf, t)...)
